@@ -1,0 +1,37 @@
+//go:build verif
+
+package verifhook
+
+// Enabled reports whether the verification hooks are compiled in.
+const Enabled = true
+
+// OrderFn, YieldFn and ObserveFn are installed by the simulator. They are nil
+// by default, in which case the hooks do nothing even with the tag on.
+var (
+	OrderFn   func(site string, n int, key func(i int) string, swap func(i, j int))
+	YieldFn   func(site string, detail string)
+	ObserveFn func(site string, detail string, obj any)
+)
+
+// Order lets a simulator impose an order on a slice that was built by
+// iterating a map.
+func Order(site string, n int, key func(i int) string, swap func(i, j int)) {
+	if f := OrderFn; f != nil && n > 1 {
+		f(site, n, key, swap)
+	}
+}
+
+// Yield marks a point between two internal statements at which a simulator
+// may hold the calling goroutine.
+func Yield(site string, detail string) {
+	if f := YieldFn; f != nil {
+		f(site, detail)
+	}
+}
+
+// Observe reports an internal event to a simulator.
+func Observe(site string, detail string, obj any) {
+	if f := ObserveFn; f != nil {
+		f(site, detail, obj)
+	}
+}
